@@ -64,7 +64,7 @@ class SeparatorGet:
     """Separator inference is total and returns a PathSeparators member."""
     assume_fields = FIELDS
     raises = []
-    opts = {"returns": "PathSeparators"}
+    opts = {"returns": "PathSeparators", "pure": True}
 
 
 @contract(YP + "separator.setter", props=["C14"])
@@ -114,6 +114,7 @@ class EscapePathSection:
     params = {"pathsep": "PathSeparators"}
     raises = []
     ensures = ["implies(isinstance(section, str), isinstance(result, str))"]
+    opts = {"pure": True}            # a deterministic function of its arguments (callers may compare two calls)
 
 
 @contract("yamlpath.enums.pathseparators.PathSeparators.infer_separator", props=["C14", "C08"])
